@@ -137,11 +137,32 @@ ContDocs ==
 
 ContInit(fam) ==
   \E k \in Kinds, optional \in BOOLEAN, doc \in ContDocs :
-     inp = [family |-> fam, src |-> "typed", k |-> k, optional |-> optional, cdoc |-> doc]
+     inp = [family |-> fam, src |-> "typed", k |-> k, optional |-> optional, cdoc |-> doc, def |-> <<>>]
+
+\* family "twice": the same container field is unmarshalled twice from the same document; between
+\* the calls the driver edits every reachable slice / map element of the first result in place and
+\* appends to it.  Both results must be members of the same allowed set (AllowedAgain).  Slices may
+\* declare default=[..] (the only container default the tag language has); shape "map" has none.
+DefSeqs == {<<>>} \cup {<<Lits[i]>> : i \in LitIdx2} \cup {<<Lits[i], Lits[j]>> : i \in LitIdx2, j \in LitIdx2}
+TwiceDocs ==
+  {[d |-> "absent", items |-> <<>>], [d |-> "cont", items |-> <<>>]}
+  \cup {[d |-> "cont", items |-> <<Lits[i]>>] : i \in LitIdx}
+  \cup {[d |-> "cont", items |-> <<Lits[i], Lits[j]>>] : i \in LitIdx, j \in LitIdx}
+TwiceInit ==
+  \E shape \in {"slice", "map"}, k \in Kinds, optional \in BOOLEAN, def \in DefSeqs, doc \in TwiceDocs :
+     /\ (shape = "map" => def = <<>>)
+     \* not generated: a default text such as [true] shared by a []string and a []bool field (the
+     \* process-wide cache of parsed defaults is keyed by the text alone; see the check's notes)
+     /\ (k = "string" => \A j \in 1..Len(def) : def[j].class # "bool")
+     /\ (def # <<>> => ~optional)
+     /\ inp = [family |-> "twice", shape |-> shape, src |-> "typed", k |-> k, optional |-> optional, cdoc |-> doc, def |-> def]
 
 ListVal(vals) == [v |-> "list", text |-> "", ms |-> 0, items |-> vals]
 ContOut(i) ==
-  CASE i.cdoc.d = "absent" ->
+  CASE i.cdoc.d = "absent" /\ i.def # <<>> ->
+         LET s == DefaultSeqAllowed(i.k, i.def)
+         IN [err |-> s.err, ok |-> s.ok /\ ~s.any, any |-> s.any, val |-> ListVal(s.vals), alt |-> NoVal, why |-> s.why]
+    [] i.cdoc.d = "absent" ->
          IF i.optional THEN Must(Zero) ELSE Either(Zero)
     [] i.cdoc.d = "lit" ->
          IF i.cdoc.items[1].class = "null" THEN ErrOrAny ELSE MustErr
@@ -151,17 +172,19 @@ ContOut(i) ==
 
 ContCase(i) ==
   LET out == ContOut(i)
+      shape == IF i.family = "twice" THEN i.shape ELSE i.family
       o == IF i.optional THEN Opts(TRUE, "", {}, NoRange, FALSE, "") ELSE Plain
       keys == <<"kx", "ky">>
       docj == CASE i.cdoc.d = "absent" -> [d |-> "absent"]
                 [] i.cdoc.d = "lit" -> [d |-> "lit", text |-> i.cdoc.items[1].text, class |-> i.cdoc.items[1].class]
-                [] OTHER -> [d |-> IF i.family = "slice" THEN "arr" ELSE "obj",
+                [] OTHER -> [d |-> IF shape = "slice" THEN "arr" ELSE "obj",
                              items |-> [j \in 1..Len(i.cdoc.items) |->
                                           [key |-> keys[j], text |-> i.cdoc.items[j].text, class |-> i.cdoc.items[j].class]]]
       yaml == \A j \in 1..Len(i.cdoc.items) : i.cdoc.items[j].yaml
   IN CaseJ(i.family, "typed", yaml,
-           <<[name |-> Names["a"], shape |-> i.family, kind |-> i.k, ptr |-> FALSE, opts |-> OptsJ(o),
-              inherit |-> FALSE, part |-> "", doc |-> docj, out |-> out, sub |-> <<>>]>>,
+           <<[name |-> Names["a"], shape |-> shape, kind |-> i.k, ptr |-> FALSE, opts |-> OptsJ(o),
+              inherit |-> FALSE, part |-> "", doc |-> docj, out |-> out, sub |-> <<>>,
+              defitems |-> [j \in 1..Len(i.def) |-> i.def[j].text]]>>,
            <<out>>)
 
 \* --------------------------------------------------------------- family: nested / inherit
@@ -211,7 +234,13 @@ RTVal(k, l) ==
     [] k = "bool" -> l.class = "bool"
     [] k = "string" -> l.class = "string" /\ l.text # ""
     [] OTHER -> FALSE
-RTPartOk(part, k, l) == part # "path" \/ k # "string" \/ l.text = "abc"     \* path segments stay plain
+\* Every generated string can be carried by every part: httpc writes path values into URL.Path
+\* (escaped once by URL.String, decoded once by the server), form values through url.Values.Encode,
+\* header values verbatim (HTTP allows everything but control characters; blanks at the ends would be
+\* trimmed and are not generated), json values through encoding/json.  Not generated because the part
+\* cannot carry them: "/" , "." and ".." as a path value (the router splits / cleans the decoded path),
+\* the empty string (dropped by form parsing, refused by the path filler), control characters.
+RTPartOk(part, k, l) == TRUE
 
 RTOut(k, l) ==
   LET v == CASE k \in NumKinds -> NumVal(l, k) [] k = "bool" -> VBool(l.text) [] OTHER -> VStr(l.text)
@@ -251,6 +280,7 @@ Init ==
     [] Family \in {"nested", "inherit"} -> NestInit(Family)
     [] Family = "roundtrip" -> RTInit
     [] Family = "axioms" -> inp = [family |-> "axioms"]
+    [] Family = "twice" -> TwiceInit
 
 Next == UNCHANGED inp
 Spec == Init /\ [][Next]_inp
@@ -262,6 +292,7 @@ CaseOf(i) ==
     [] i.family \in {"nested", "inherit"} -> NestCase(i)
     [] i.family = "roundtrip" -> RTCase(i)
     [] i.family = "axioms" -> AxiomsCase
+    [] i.family = "twice" -> ContCase(i)
 
 Emit == PrintT(ToJson(CaseOf(inp)))
 
